@@ -106,8 +106,20 @@ func genC18(r *rand.Rand, t *Trace, thorough bool) {
 			qs[i] = rndVecMag(r, dim)
 		}
 		tg := rndVecMag(r, dim)
+		for i := range qs {
+			if r.Intn(3) == 0 { // close to the target relative to their magnitude (cancellation-prone)
+				qs[i] = related(r, tg)
+				if len(qs[i]) != dim {
+					qs[i] = rndVecMag(r, dim)
+				}
+			}
+		}
 		out := d.CalculateBatch(qs, tg)
-		c := NewCase(1802).N(mz).Vecs(qs).Vec(tg).Vec(out)
+		calc := make([]float32, len(qs))
+		for i := range qs {
+			calc[i] = d.Calculate(qs[i], tg)
+		}
+		c := NewCase(1802).N(mz).Vecs(qs).Vec(tg).Vec(out).Vec(calc)
 		t.Emit(c, "batch."+string(metrics[mz]))
 	}
 	for it := 0; it < 120*mult; it++ {
